@@ -148,12 +148,18 @@ class TblFile(Case):
         for name, genes in zip(("contigA", "contigB"), S.const("genes")):
             parent = seq_to_parent(GENOME, seq_id=name)
             gs, ms = [], []
-            for gi, (blocks, strand, cds, f0) in enumerate(genes):
+            for gi, entry in enumerate(genes):
+                blocks, strand, cds, f0 = entry[:4]
+                split = entry[4] if len(entry) > 4 else None
                 blocks = [tuple(b) for b in blocks]
                 kw = {}
                 cb = None
                 if cds is not None:
                     cb = [(max(s, cds[0]), min(e, cds[1])) for s, e in blocks if max(s, cds[0]) < min(e, cds[1])]
+                    if split is not None and len(cb) == 1 and cb[0][0] < split < cb[0][1]:
+                        # a single-exon transcript whose CDS is listed as two ADJACENT blocks (0 bp gap): the export
+                        # must merge them like the blocks of multi-exon transcripts
+                        cb = [(cb[0][0], split), (split, cb[0][1])]
                     st = Strand[strand]
                     loc = (SingleInterval(cb[0][0], cb[0][1], st) if len(cb) == 1 else
                            CompoundInterval([b[0] for b in cb], [b[1] for b in cb], st))
@@ -191,9 +197,13 @@ class TblFile(Case):
                 for f0 in (0, 1, 2):
                     genes.append([bl, strand, [bl[0][0], bl[-1][1]], f0])
                 genes.append([bl, strand, [bl[0][0] + 1, bl[-1][1] - 1], 0])
+        for strand in ("PLUS", "MINUS"):
+            genes.append([[(2, 23)], strand, [2, 23], 0, 11])
+            genes.append([[(29, 38)], strand, [29, 38], 0, 32])
+            genes.append([[(53, 60)], strand, [53, 60], 0, 56])
         triples = [genes[k:k + 3] for k in range(0, len(genes) - 2, 3)]
         if tier == "quick":
-            triples = triples[::2]
+            triples = triples[::2] + triples[-2:]
         for a, b in zip(triples, triples[1:] + triples[:1]):
             for flavor in ("EUKARYOTIC", "PROKARYOTIC"):
                 for step, seed, table in ((1, 0, "DEFAULT"), (5, 7, "PROKARYOTE")):
